@@ -82,6 +82,8 @@ Definition real_pow (a b : real) : res (ex real) :=
   | Simple y =>
     if negb (q_is_int y) && real_is_neg a then Err EOutOfFuel
     else if Qeq_bool y 1 then Ok (mkex a true)
+    (* x^0 == 1 for x != 0 whatever the pattern of x (fend commit d3c0150); 0^0 stays an error *)
+    else if Qeq_bool y 0 && negb (real_is_zero a) then Ok (mkex (Simple 1) true)
     else
       match a with
       | Simple x =>
@@ -151,9 +153,10 @@ Definition add_to_hashmap (u : uexp) (st : hmap * real * bool) : res (hmap * rea
   let '(h, scale, exact) := st in
   let h' := add_bases (ue_exp u) (nu_base (ue_unit u)) h in
   do p <- real_pow (nu_scale (ue_unit u)) (Simple (ue_exp u));
-  (* Exact::new(scale, true).mul(&pow_result).value: the flag of the product is dropped *)
-  let scale' := xv (er_mul (mkex scale true) p) in
-  Ok (h', scale', exact && xe p).
+  (* the product itself can be inexact (pi * pi is approximated): its flag is kept
+     since fend commit 4dad8b2 *)
+  let product := er_mul (mkex scale true) p in
+  Ok (h', xv product, exact && xe p && xe product).
 
 Fixpoint to_hashmap_and_scale_go (us : list uexp) (st : hmap * real * bool) : res (hmap * real * bool) :=
   match us with
